@@ -1,5 +1,10 @@
 (* Model side of the sequential ART correspondence: same line protocol as
-   harness/seq_diff.cpp.  First line: "Z <leaf-1> <n4> <n16> <n48> <n256>". *)
+   harness/seq_diff.cpp.  First line: "Z <leaf-1> <n4> <n16> <n48> <n256>".
+   Mode "blocks" (C10, Art/ArtAlloc.v): every D line also carries
+   " A=<size>x<count>,..." - the live multiset maintained operation by operation as
+   live + op_allocs - op_frees (it must equal the blocks of the tree, theorem
+   C10h_live_is_tree; checked here again) - and " T=+<allocs>/-<frees>" - the sizes
+   the operations since the previous D obtained from / returned to the allocator. *)
 open Model
 open Zutil
 
@@ -24,12 +29,30 @@ let show_res f = function
 let show_scan l =
   if l = [] then "none" else String.concat "," (List.map (fun (k, v) -> hexs k ^ ":" ^ hexs v) l)
 
+(* multiset of sizes as "<size>x<count>,..." in ascending size order *)
+let multiset_str (l : z list) : string =
+  let l = List.sort compare (List.map int_of_z l) in
+  let rec go acc = function
+    | [] -> List.rev acc
+    | x :: r -> (match acc with
+        | (y, n) :: acc' when y = x -> go ((y, n + 1) :: acc') r
+        | _ -> go ((x, 1) :: acc) r) in
+  match go [] l with
+  | [] -> "-"
+  | g -> String.concat "," (List.map (fun (x, n) -> Printf.sprintf "%dx%d" x n) g)
+
 let halt_of s = if s = "-" then None else Some (nat_of_int (int_of_string s))
 
 let () =
   let sz = ref { sz_leaf = z_of_int 11; sz4 = z_of_int 48; sz16 = z_of_int 160; sz48 = z_of_int 672; sz256 = z_of_int 2064 } in
   let d = ref db0 in
   let allocs = Array.length Sys.argv > 1 && Sys.argv.(1) = "allocs" in
+  let blocks = Array.length Sys.argv > 1 && Sys.argv.(1) = "blocks" in
+  let live = ref (Some []) in          (* None: the model itself would free a size that is not live *)
+  let got = ref [] and returned = ref [] in
+  let effect al fr =
+    got := al @ !got; returned := fr @ !returned;
+    live := (match !live with Some l -> free_all fr (l @ al) | None -> None) in
   let show_allocs r = if not allocs then "" else match r with Ok n -> Printf.sprintf " a=%d" (int_of_nat n) | Err _ -> " a=?" in
   (try while true do
     let line = input_line stdin in
@@ -38,15 +61,17 @@ let () =
     | "Z" :: a :: b :: c :: e :: f :: _ ->
       let zi s = z_of_int (int_of_string s) in
       sz := { sz_leaf = zi a; sz4 = zi b; sz16 = zi c; sz48 = zi e; sz256 = zi f }
-    | ["N"] -> d := db0; print_endline "N"
+    | ["N"] -> d := db0; live := Some []; got := []; returned := []; print_endline "N"
     | ["I"; k; v] ->
       let k = unhex k and v = unhex v in
       let a = show_allocs (db_insert_allocs !d k v) in
+      if blocks then effect (ins_allocs !sz !d k v) (ins_frees !sz !d k v);
       (match db_insert !sz !d k v with
        | Ok (d', r) -> d := d'; print_endline ((if r then "1" else "0") ^ a)
        | Err _ as e -> print_endline (show_res (fun _ -> "") e))
     | ["R"; k] ->
       let a = show_allocs (db_remove_allocs !d (unhex k)) in
+      if blocks then effect (rem_allocs !sz !d (unhex k)) (rem_frees !sz !d (unhex k));
       (match db_remove !sz !d (unhex k) with
        | Ok (d', r) -> d := d'; print_endline ((if r then "1" else "0") ^ a)
        | Err _ as e -> print_endline (show_res (fun _ -> "") e))
@@ -55,7 +80,7 @@ let () =
     | ["G"; k] ->
       print_endline (show_res (function None -> "-" | Some (id, v) -> string_of_int (int_of_z id) ^ ":" ^ hexs v) (db_get !d (unhex k)))
     | ["E"] -> print_endline (if db_empty !d then "1" else "0")
-    | ["C"] -> d := db_clear !d; print_endline "C"
+    | ["C"] -> if blocks then effect [] (db_blocks !sz !d); d := db_clear !d; print_endline "C"
     | ["S"; dir; h] -> print_endline (show_res show_scan (db_scan !d (dir = "f") (halt_of h)))
     | ["F"; k; dir; h] -> print_endline (show_res show_scan (db_scan_from !d (unhex k) (dir = "f") (halt_of h)))
     | ["Q"; a; b; h] -> print_endline (show_res show_scan (db_scan_range !d (unhex a) (unhex b) (halt_of h)))
@@ -70,8 +95,18 @@ let () =
       let s = !d.st in
       let i z = string_of_int (int_of_z z) in
       let four f = String.concat "," [i (f C4); i (f C16); i (f C48); i (f C256)] in
-      Printf.printf "%s L=%s N=%s G=%s S=%s SP=%s M=%s\n"
+      let a =
+        if not blocks then "" else begin
+          let t = " T=+" ^ multiset_str !got ^ "/-" ^ multiset_str !returned in
+          got := []; returned := [];
+          match !live with
+          | None -> " A=MODEL-FREES-A-SIZE-NOT-LIVE" ^ t
+          | Some l ->
+            if multiset_str l <> multiset_str (db_blocks !sz !d) then " A=MODEL-LIVE-IS-NOT-THE-TREE" ^ t
+            else " A=" ^ multiset_str l ^ t
+        end in
+      Printf.printf "%s L=%s N=%s G=%s S=%s SP=%s M=%s%s\n"
         (match !d.root with None -> "empty" | Some n -> canon n)
-        (i s.n_leaf) (four s.n_i) (four s.grow) (four s.shrink) (i s.splits) (i s.mem)
+        (i s.n_leaf) (four s.n_i) (four s.grow) (four s.shrink) (i s.splits) (i s.mem) a
     | _ -> print_endline "?"
   done with End_of_file -> ())
